@@ -112,9 +112,9 @@ pub fn c19_variants(tier: &str, words: &[u32]) -> Vec<Variant> {
         s.words = words.to_vec();
         s.mons.c19 = true;
         s.alpha = Alpha {
-            srcs: vec![id(B, 0), id(C, 0)],
-            src_incs: vec![0],
+            srcs: vec![(id(B, 0), 0, true), (id(C, 0), 0, true)],
             kinds: vec![Kind::Gossip, Kind::Ping, Kind::Announce],
+            payload_kinds: vec![Kind::Gossip],
             payloads: vec![
                 vec![],
                 vec![mm(id(A, 0), 0, State::Alive)],
@@ -150,11 +150,354 @@ pub fn c19(tier: &str) -> Report {
     rep
 }
 
+// ------------------------------------------------------- shared pieces --
+
+/// Formed start states built by real calls (DESIGN 2.5).
+fn formed_seeds(s: &CoreSpec, which: &[&str]) -> Vec<Vec<HistStep>> {
+    let mut out = Vec::new();
+    let b0 = id(B, 0);
+    let c0 = id(C, 0);
+    for w in which {
+        let mut sb = SeedBuilder::new(s);
+        match *w {
+            // connected with two peers
+            "two-peers" => {
+                sb.ev(Ev::Apply(vec![al(b0), al(c0)], true));
+            }
+            // one peer only
+            "one-peer" => {
+                sb.ev(Ev::Apply(vec![al(b0)], true));
+            }
+            // mid-probe: the probe timer fired, Ping is out
+            "mid-probe" => {
+                sb.ev(Ev::Apply(vec![al(b0), al(c0)], true));
+                sb.fire(|t| matches!(t, TimerKey::ProbeRandomMember(_)));
+            }
+            // indirect stage reached, no ack yet
+            "indirect" => {
+                sb.ev(Ev::Apply(vec![al(b0), al(c0)], true));
+                sb.fire(|t| matches!(t, TimerKey::ProbeRandomMember(_)));
+                sb.fire(|t| matches!(t, TimerKey::SendIndirectProbe { .. }));
+            }
+            // one peer suspected, its timeout outstanding
+            "suspected" => {
+                sb.ev(Ev::Apply(vec![al(b0), al(c0)], true));
+                sb.fire(|t| matches!(t, TimerKey::ProbeRandomMember(_)));
+                sb.fire(|t| matches!(t, TimerKey::SendIndirectProbe { .. }));
+                sb.fire(|t| matches!(t, TimerKey::ProbeRandomMember(_)));
+            }
+            // suspected with a single peer (its Down makes the instance idle)
+            "suspected-single" => {
+                sb.ev(Ev::Apply(vec![al(b0)], true));
+                sb.fire(|t| matches!(t, TimerKey::ProbeRandomMember(_)));
+                sb.fire(|t| matches!(t, TimerKey::SendIndirectProbe { .. }));
+                sb.fire(|t| matches!(t, TimerKey::ProbeRandomMember(_)));
+            }
+            // defunct after leaving
+            "defunct" => {
+                sb.ev(Ev::Apply(vec![al(b0), al(c0)], true));
+                sb.ev(Ev::Leave);
+            }
+            // just renamed by the user
+            "renamed" => {
+                sb.ev(Ev::Apply(vec![al(b0), al(c0)], true));
+                let me = sb.view().id;
+                sb.ev(Ev::ChangeId(Id { gen: me.gen + 1, ..me }));
+            }
+            // a peer is Down with its forget-timer outstanding
+            "peer-down" => {
+                sb.ev(Ev::Apply(vec![al(b0), al(c0)], true));
+                sb.ev(Ev::Apply(vec![mm(b0, 0, State::Down)], true));
+            }
+            _ => panic!("unknown seed {w}"),
+        }
+        out.push(sb.done());
+    }
+    out
+}
+
+fn base_alpha() -> Alpha {
+    Alpha {
+        srcs: vec![(id(B, 0), 0, true), (id(B, 0), 1, false), (id(B, 1), 0, false), (id(C, 0), 0, true)],
+        kinds: vec![Kind::Gossip, Kind::Ping, Kind::Announce, Kind::TurnUndead],
+        payload_kinds: vec![Kind::Gossip],
+        payloads: vec![
+            vec![],
+            vec![mm(id(B, 0), 0, State::Suspect)],
+            vec![mm(id(B, 0), 0, State::Down)],
+            vec![mm(id(B, 1), 0, State::Alive)],
+            vec![mm(id(C, 0), 1, State::Alive)],
+            vec![mm(id(C, 0), 0, State::Down)],
+            vec![mm(id(A, 0), 0, State::Alive)],
+            vec![mm(id(A, 2), 0, State::Down)],
+            // the active set empties and refills within one call
+            vec![mm(id(B, 0), 0, State::Down), mm(id(C, 0), 0, State::Down), mm(id(D, 0), 0, State::Alive)],
+        ],
+        self_rel: vec![(0, State::Down), (0, State::Suspect)],
+        self_abs: vec![(u16::MAX, State::Suspect)],
+        self_via_apply: true,
+        applies: vec![
+            (vec![al(id(C, 0))], true),
+            (vec![mm(id(B, 0), 0, State::Down), mm(id(C, 0), 1, State::Suspect)], false),
+        ],
+        api: vec![Ev::Leave, Ev::Reuse, Ev::Gossip],
+        change_gens: vec![1, -1],
+        ..Alpha::default()
+    }
+}
+
+// ------------------------------------------------------------------ C08 --
+
+pub fn c08_variants(tier: &str, words: &[u32]) -> Vec<Variant> {
+    let th = is_thorough(tier);
+    let mut out = Vec::new();
+    for (pol, nd) in [(Renew::None, false), (Renew::Next, true)] {
+        let me = id(A, 1).with(pol);
+        let cfg = Cfg { notify_down: nd, ..Cfg::default() };
+        let mut s = CoreSpec::new(&format!("c08-{pol:?}-nd{}", nd as u8), me, cfg);
+        s.words = words.to_vec();
+        s.mons.c08 = true;
+        s.mons.c08_twin = true;
+        s.alpha = base_alpha();
+        s.seed_hists = formed_seeds(&s, &["two-peers", "mid-probe", "suspected", "suspected-single", "defunct", "renamed", "peer-down"]);
+        let l = if th { lim(5, 4, 8_000_000, 900.0) } else { lim(3, 3, 2_000_000, 40.0) };
+        out.push(Variant { spec: s, lim: l });
+    }
+    out
+}
+
+pub fn c08(tier: &str) -> Report {
+    let mut rep = Report::new("C08", tier, "model_checking");
+    let words = calibrated(&mut rep, 4, 3);
+    run_variants("C08", tier, c08_variants(tier, &words), &mut rep);
+    rep.assume("'randomly far beyond the depth bound' (quantifier text) is not done: sampling is outside the model-checking family");
+    rep
+}
+
+// ------------------------------------------------------------------ C09 --
+
+pub fn c09_variants(tier: &str, words: &[u32]) -> Vec<Variant> {
+    let th = is_thorough(tier);
+    let mut out = Vec::new();
+    for (pol, nd) in [(Renew::Next, true), (Renew::None, false)] {
+        let me = id(A, 1).with(pol);
+        let cfg = Cfg { notify_down: nd, ..Cfg::default() };
+        let mut s = CoreSpec::new(&format!("c09-{pol:?}-nd{}", nd as u8), me, cfg);
+        s.words = words.to_vec();
+        s.mons.c09 = true;
+        let mut a = base_alpha();
+        // senders that are older / newer generations of known peers and of
+        // the instance's own address
+        a.srcs = vec![
+            (id(B, 1), 0, true),
+            (id(B, 0), 0, false),
+            (id(B, 2), 0, false),
+            (id(C, 0), 0, true),
+            (id(A, 0), 0, false),
+            (id(A, 2), 0, false),
+        ];
+        a.own_addr_srcs = true;
+        a.payloads.push(vec![mm(id(B, 2), 0, State::Alive)]);
+        a.payloads.push(vec![mm(id(B, 1), 0, State::Down)]);
+        a.items = vec![vec![1, 1, 7]];
+        a.stale_dst_gens = vec![-1];
+        s.alpha = a;
+        s.seed_hists = formed_seeds(&s, &["two-peers", "peer-down", "renamed", "suspected"]);
+        // B known at generation 1, then B.0 (superseded) talks
+        let mut sb = SeedBuilder::new(&s);
+        sb.ev(Ev::Apply(vec![al(id(B, 1)), al(id(C, 0))], true));
+        s.seed_hists.push(sb.done());
+        let l = if th { lim(5, 4, 8_000_000, 900.0) } else { lim(3, 3, 2_000_000, 40.0) };
+        out.push(Variant { spec: s, lim: l });
+    }
+    out
+}
+
+pub fn c09(tier: &str) -> Report {
+    let mut rep = Report::new("C09", tier, "model_checking");
+    let words = calibrated(&mut rep, 4, 3);
+    run_variants("C09", tier, c09_variants(tier, &words), &mut rep);
+    rep
+}
+
+// ------------------------------------------------------------------ C10 --
+
+pub fn c10_variants(tier: &str, words: &[u32]) -> Vec<Variant> {
+    let th = is_thorough(tier);
+    let mut out = Vec::new();
+    for pol in [Renew::None, Renew::Next, Renew::Same, Renew::Losing] {
+        let me = id(A, 1).with(pol);
+        let cfg = Cfg { notify_down: true, ..Cfg::default() };
+        let mut s = CoreSpec::new(&format!("c10-{pol:?}"), me, cfg);
+        s.words = words.to_vec();
+        s.mons.c10 = true;
+        let mut a = base_alpha();
+        a.srcs = vec![(id(B, 0), 0, true), (id(B, 0), 5, false), (id(C, 0), 1, false)];
+        a.kinds = vec![Kind::Gossip, Kind::Ping, Kind::Announce, Kind::TurnUndead, Kind::PingReq(id(C, 0))];
+        a.payloads = vec![
+            vec![],
+            vec![mm(id(C, 0), 5, State::Suspect)],
+            vec![mm(id(B, 0), 1, State::Down)],
+            vec![mm(id(A, 0), 0, State::Suspect)],
+            vec![mm(id(A, 2), 3, State::Suspect)],
+        ];
+        a.self_rel = vec![(-1, State::Suspect), (0, State::Suspect), (1, State::Suspect), (0, State::Alive), (0, State::Down)];
+        a.self_abs = vec![(u16::MAX - 1, State::Suspect), (u16::MAX, State::Suspect), (u16::MAX, State::Alive)];
+        a.applies = vec![(vec![al(id(C, 0))], true)];
+        a.api = vec![Ev::Leave, Ev::Reuse, Ev::Gossip];
+        a.change_gens = vec![1];
+        s.alpha = a;
+        s.seed_hists = formed_seeds(&s, &["two-peers", "mid-probe", "defunct"]);
+        let l = if th { lim(5, 5, 8_000_000, 900.0) } else { lim(3, 3, 2_000_000, 40.0) };
+        out.push(Variant { spec: s, lim: l });
+    }
+    out
+}
+
+pub fn c10(tier: &str) -> Report {
+    let mut rep = Report::new("C10", tier, "model_checking");
+    let words = calibrated(&mut rep, 4, 3);
+    run_variants("C10", tier, c10_variants(tier, &words), &mut rep);
+    rep.assume("'told' is taken over every input ever given, accepted or not (more lenient than the property, never stricter)");
+    rep
+}
+
+// ------------------------------------------------------------------ C11 --
+
+pub fn c11_variants(tier: &str, words: &[u32]) -> Vec<Variant> {
+    let th = is_thorough(tier);
+    let mut out = Vec::new();
+    for nd in [false, true] {
+        let me = id(A, 1).with(Renew::None);
+        let cfg = Cfg { notify_down: nd, remove_down: 1000, ..Cfg::default() };
+        let mut s = CoreSpec::new(&format!("c11-nd{}", nd as u8), me, cfg);
+        s.words = words.to_vec();
+        s.mons.c11 = true;
+        s.alpha = Alpha {
+            srcs: vec![(id(B, 0), 0, false), (id(B, 0), 1, false), (id(B, 1), 0, false), (id(C, 0), 0, true)],
+            kinds: vec![Kind::Gossip, Kind::Ack(0)],
+            payload_kinds: vec![Kind::Gossip],
+            payloads: vec![
+                vec![],
+                vec![mm(id(B, 0), 1, State::Alive)],
+                vec![mm(id(B, 0), 1, State::Suspect)],
+                vec![mm(id(B, 0), 0, State::Down)],
+                vec![mm(id(B, 1), 0, State::Alive)],
+                vec![mm(id(B, 0), 0, State::Alive)],
+                vec![mm(id(C, 0), 0, State::Down)],
+            ],
+            api: vec![],
+            change_gens: vec![1],
+            redeliver_suspect_timers: true,
+            ..Alpha::default()
+        };
+        s.seed_hists = formed_seeds(&s, &["suspected", "suspected-single", "two-peers"]);
+        // suspected, then declared Down elsewhere (forget-timer outstanding)
+        let mut sb = SeedBuilder::new(&s);
+        sb.ev(Ev::Apply(vec![al(id(B, 1)), al(id(C, 0))], true));
+        for _ in 0..3 {
+            // probe rounds until B.1 is the suspected one
+            if sb.view().members.iter().any(|m| m.state() == State::Suspect) {
+                break;
+            }
+            sb.fire(|t| matches!(t, TimerKey::ProbeRandomMember(_)));
+            sb.fire(|t| matches!(t, TimerKey::SendIndirectProbe { .. }));
+        }
+        sb.fire(|t| matches!(t, TimerKey::ProbeRandomMember(_)));
+        s.seed_hists.push(sb.done());
+        let l = if th { lim(7, 6, 10_000_000, 1200.0) } else { lim(4, 4, 2_500_000, 45.0) };
+        out.push(Variant { spec: s, lim: l });
+    }
+    out
+}
+
+pub fn c11(tier: &str) -> Report {
+    use std::sync::atomic::Ordering::Relaxed;
+    let mut rep = Report::new("C11", tier, "model_checking");
+    let words = calibrated(&mut rep, 4, 3);
+    run_variants("C11", tier, c11_variants(tier, &words), &mut rep);
+    let rows: Vec<u64> = crate::mon_timers::C11_ROWS.iter().map(|a| a.load(Relaxed)).collect();
+    rep.set(
+        "timeout_firings_by_case",
+        json!({"effective": rows[0], "cancelled_by_refutation_or_rename": rows[1], "stale_epoch_or_duplicate": rows[2], "already_down": rows[3]}),
+    );
+    if rep.violations.is_empty() && rows[..3].iter().any(|r| *r == 0) {
+        rep.machinery(format!("vacuous: a case-table row was never exercised: {rows:?}"));
+    }
+    rep
+}
+
+// ------------------------------------------------------------------ C13 --
+
+pub fn c13_variants(tier: &str, words: &[u32]) -> Vec<Variant> {
+    let th = is_thorough(tier);
+    let mut out = Vec::new();
+    for mask in 0..8u8 {
+        for deadline in [false, true] {
+            if !th && !([7u8, 0].contains(&mask) || (mask == 5 && !deadline)) {
+                continue;
+            }
+            let me = id(A, 1).with(Renew::Next);
+            let cfg = Cfg {
+                notify_down: true,
+                announce: (mask & 1 != 0).then_some((500, 1)),
+                announce_down: (mask & 2 != 0).then_some((700, 1)),
+                gossip: (mask & 4 != 0).then_some((200, 1)),
+                ..Cfg::default()
+            };
+            let mut s = CoreSpec::new(&format!("c13-tasks{mask}-{}", if deadline { "deadline" } else { "anyorder" }), me, cfg.clone());
+            s.words = words.to_vec();
+            s.mons.c13 = true;
+            if deadline {
+                s.policy = TimerPolicy::DeadlineOrder;
+                s.sleep_menu = vec![45, 150];
+            }
+            // set_config: disable each periodic task / change its period
+            let mut api = vec![Ev::Leave, Ev::Reuse];
+            if mask & 4 != 0 {
+                api.push(Ev::SetConfig(Box::new(Cfg { gossip: None, ..cfg.clone() })));
+                api.push(Ev::SetConfig(Box::new(Cfg { gossip: Some((350, 1)), ..cfg.clone() })));
+            }
+            if mask & 1 != 0 {
+                api.push(Ev::SetConfig(Box::new(Cfg { announce: None, ..cfg.clone() })));
+            }
+            s.alpha = Alpha {
+                srcs: vec![(id(B, 0), 0, true)],
+                kinds: vec![Kind::Gossip, Kind::Ack(0), Kind::TurnUndead],
+                payload_kinds: vec![Kind::Gossip],
+                payloads: vec![vec![], vec![mm(id(C, 0), 0, State::Alive)], vec![mm(id(C, 0), 0, State::Down)], vec![mm(id(B, 0), 0, State::Down)]],
+                self_rel: vec![(0, State::Down)],
+                applies: vec![(vec![mm(id(B, 0), 0, State::Down), mm(id(C, 0), 0, State::Down)], true)],
+                api,
+                change_gens: vec![1],
+                ..Alpha::default()
+            };
+            s.seed_hists = formed_seeds(&s, &["one-peer", "two-peers", "mid-probe"]);
+            let l = if th { lim(8, 7, 10_000_000, 900.0) } else { lim(5, 5, 2_000_000, 30.0) };
+            out.push(Variant { spec: s, lim: l });
+        }
+    }
+    out
+}
+
+pub fn c13(tier: &str) -> Report {
+    let mut rep = Report::new("C13", tier, "model_checking");
+    let words = calibrated(&mut rep, 4, 3);
+    run_variants("C13", tier, c13_variants(tier, &words), &mut rep);
+    rep.assume("fewer than 256 epoch changes between issue and delivery (the width of the token): guaranteed by the depth bound");
+    rep
+}
+
 /// Look a variant up again for `verif replay`.
 pub fn find_variant(prop: &str, tier: &str, label: &str) -> Option<CoreSpec> {
     let words = rng::menu(4, 3);
     let vs = match prop {
         "C19" => c19_variants(tier, &words),
+        "C08" => c08_variants(tier, &words),
+        "C09" => c09_variants(tier, &words),
+        "C10" => c10_variants(tier, &words),
+        "C11" => c11_variants(tier, &words),
+        "C13" => c13_variants(tier, &words),
         _ => return None,
     };
     vs.into_iter().map(|v| v.spec).find(|s| s.label == label)
